@@ -164,18 +164,6 @@ impl SyntaxPattern {
                                 );
                             }
                         }
-                        SyntaxPatternBody::Identifier(var) if pattern_literals.contains(var) => {
-                            Self::match_datum_stream(
-                                pattern_index + 1,
-                                datum_index + 1,
-                                depth,
-                                patterns,
-                                datums,
-                                pattern_literals,
-                                substitutions,
-                                None,
-                            )?
-                        }
                         _ => Self::match_datum_stream(
                             pattern_index + 1,
                             datum_index + 1,
